@@ -286,9 +286,11 @@ def _run_against(wd, s_):
     g = "%s/g%d" % (TMP, s_)
     shutil.rmtree(g, ignore_errors=True); os.makedirs(g)
     rc, out = sh([os.path.join(ROOT, "extract", "extract"), wd, g], timeout=120)
-    if rc != 0:
+    if rc not in (0, 3):
         res["tie"].append("extract-fails-closed: " + out.strip()[-200:])
     else:
+        if rc == 3:
+            res["tie"].append("extract-partial: " + out.strip()[-200:])
         for fn in sorted(os.listdir(os.path.join(CASES, "gen-clean"))):
             a = open(os.path.join(CASES, "gen-clean", fn)).read()
             b = open(os.path.join(g, fn)).read() if os.path.exists(os.path.join(g, fn)) else ""
@@ -396,7 +398,7 @@ def tiebuild(dirs):
             if rc != 0:
                 print(name, "PATCH-FAILED"); bad += 1; continue
             rc, out = sh([os.path.join(ROOT, "extract", "extract"), wd, gen], timeout=120)
-            if rc != 0:
+            if rc not in (0, 3):
                 print(name, "EXTRACT-FAILS-CLOSED", out.strip()[-200:]); bad += 1; continue
             rc, out = sh(["lake", "build"], cwd=os.path.join(ROOT, "lean"), timeout=3600, env=dict(os.environ))
             errs = [l for l in out.splitlines() if l.startswith("error")]
